@@ -442,8 +442,10 @@ func doFormat(w io.Writer, obj Object, opt OutputOptions, needSep bool) (bool, e
 		}
 
 		// method 2: If we can seek, write whitespace now and replace this with
-		// the actual value later.
-		if _, ok := x.pdf.origW.(io.WriteSeeker); ok {
+		// the actual value later.  This needs the file position of the
+		// placeholder, which is only known when formatting directly into the
+		// file (and not, for example, into the body of an object stream).
+		if _, ok := x.pdf.origW.(io.WriteSeeker); ok && w == io.Writer(x.pdf.w) {
 			x.pos = append(x.pos, x.pdf.w.pos)
 			_, err := w.Write(bytes.Repeat([]byte{' '}, x.size))
 			return true, err
